@@ -42,6 +42,11 @@ import (
 //	in <outcome> <limit> <via> <ver> | ok accepted=<0|1> free_mid=<m> free=<f> delivered=<0|1>
 //	    handleOffer on A (via=direct: handler call, via=talkreq: a real TALKREQ OFFER from a peer); free_mid = inbound
 //	    permits obtainable while the transfer is pending ("-" when that moment cannot be observed), free = after quiescence
+//	stall <limit> <held0> v<ver> | ok first=<0|1> during=<f> second=<0|1> delivered=<0|1> after=<f>
+//	    receiver with `limit` inbound slots of which held0 are taken by the harness; a real TALKREQ OFFER is accepted, the
+//	    sender dials the announced connection id and STALLS (stream open, nothing written); during the stall: free inbound
+//	    slots (during) and a second TALKREQ OFFER of another key (second = it was accepted); then the first sender writes
+//	    and closes (delivered), a second accepted transfer is completed too, after = free slots at quiescence
 //	instress <limit> <n> | ok accepted=<a> free=<f>                n offers of distinct keys at once, then Stop()
 //	stress <limit> <k> <m> | ok peak=<p> free=<f>                  k goroutines x m offers, peak = most slots held at once
 func init() { registry["C16"] = runC16 }
@@ -590,6 +595,107 @@ func c16inStressCase(g *c16gen, limit, n int) string {
 	return fmt.Sprintf("instress %d %d | ok accepted=%d free=%d", limit, n, accepted.Load(), free)
 }
 
+// ---------------------------------------------------------------- inbound: slot held while the transfer is in progress
+
+func c16talkOffer(from *portalwire.VerifONode, to *portalwire.VerifONode, ver int, key []byte) (bool, uint16) {
+	ob, err := (&portalwire.Offer{ContentKeys: [][]byte{key}}).MarshalSSZ()
+	if err != nil {
+		panic(err)
+	}
+	resp, _ := from.P.DiscV5.TalkRequest(to.Self(), string(portalwire.History), append([]byte{portalwire.OFFER}, ob...))
+	acc, id := c16acceptedIn(ver, resp)
+	return acc && id != 0, id
+}
+
+func c16stallCase(g *c16gen, limit, held0, ver int) string {
+	A, aq := c16node(g, limit, []byte{0, 1}, 8, true)
+	defer A.Stop()
+	B, _ := c16node(g, 50, c16pv(ver), 4, true)
+	defer B.Stop()
+	B.Ping(A.Self())
+	var held []portalwire.Permit
+	for i := 0; i < held0; i++ {
+		if p, ok := A.InboundPermit(); ok {
+			held = append(held, p)
+		}
+	}
+	defer func() {
+		for _, p := range held {
+			p.Release()
+		}
+	}()
+	key1 := append([]byte("c16-stall-1-"), g.bytes(10)...)
+	key2 := append([]byte("c16-stall-2-"), g.bytes(10)...)
+	first, during, second, delivered := 0, -1, 0, 0
+	acc1, id1 := c16talkOffer(B, A, ver, key1)
+	id1saved := id1
+	if acc1 {
+		first = 1
+		ctx, cancel := context.WithTimeout(context.Background(), 10*time.Second)
+		defer cancel()
+		conn, err := B.P.Utp.DialWithCid(ctx, A.Self(), id1)
+		if err == nil {
+			// the stream is open and nothing has been written: the receiver sits in ReadToEOF
+			time.Sleep(1200 * time.Millisecond)
+			during = c16free(A.InboundPermit, limit)
+			acc2, id2 := c16talkOffer(B, A, ver, key2)
+			if acc2 {
+				second = 1
+			}
+			conn.Write(ctx, append(c16uvarint(5), 1, 2, 3, 4, 5))
+			conn.Close()
+			select {
+			case el := <-aq:
+				if len(el.ContentKeys) == 1 && string(el.ContentKeys[0]) == string(key1) && len(el.Contents) == 1 && len(el.Contents[0]) == 5 {
+					delivered = 1
+				}
+			case <-time.After(10 * time.Second):
+			}
+			if acc2 { // finish the second transfer as well so that its slot comes back without the 15 s accept timeout
+				if c2, err := B.P.Utp.DialWithCid(ctx, A.Self(), id2); err == nil {
+					c2.Write(ctx, append(c16uvarint(2), 7, 8))
+					c2.Close()
+					select {
+					case <-aq:
+					case <-time.After(10 * time.Second):
+					}
+				}
+			}
+		}
+	}
+	c16settle(10*time.Second, func() bool { return c16free(A.InboundPermit, limit) == limit-held0 })
+	after := c16free(A.InboundPermit, limit)
+	// the receive goroutine of a successfully handled offer loops and accepts again on the same connection id: does a
+	// second stream get in (no slot is held for it any more)?
+	restream := "-"
+	if delivered == 1 {
+		restream = "0"
+		res := make(chan string, 1)
+		go func() { // utp-go's ConnectWithCid can block regardless of its context: bounded from outside
+			ctx3, cancel3 := context.WithTimeout(context.Background(), 3*time.Second)
+			defer cancel3()
+			c3, err := B.P.Utp.DialWithCid(ctx3, A.Self(), id1saved)
+			if err != nil {
+				res <- "0"
+				return
+			}
+			c3.Write(ctx3, append(c16uvarint(3), 9, 9, 9))
+			c3.Close()
+			select {
+			case <-aq:
+				res <- "delivered"
+			case <-time.After(3 * time.Second):
+				res <- "connected"
+			}
+		}()
+		select {
+		case restream = <-res:
+		case <-time.After(7 * time.Second):
+		}
+	}
+	return fmt.Sprintf("stall %d %d v%d | ok first=%d during=%d second=%d delivered=%d after=%d restream=%s", limit, held0, ver, first, during, second, delivered, after, restream)
+}
+
 // ---------------------------------------------------------------- outbound stress
 
 func c16stressCase(g *c16gen, limit, k, m int) string {
@@ -788,6 +894,8 @@ func c16jobOf0(g *c16gen, f []string) *c16job {
 		return &c16job{run: func() string { return c16shutdownQueuedCase(g, c16atoi(f[1]), c16atoi(f[2])) }}
 	case "in":
 		return &c16job{run: func() string { return c16inCase(g, f[1], c16atoi(f[2]), f[3], c16atoi(f[4])) }}
+	case "stall":
+		return &c16job{run: func() string { return c16stallCase(g, c16atoi(f[1]), c16atoi(f[2]), c16atoi(strings.TrimPrefix(f[3], "v"))) }}
 	case "instress":
 		return &c16job{run: func() string { return c16inStressCase(g, c16atoi(f[1]), c16atoi(f[2])) }}
 	case "stress":
@@ -850,6 +958,15 @@ func runC16(c *Ctx) {
 		}
 	}
 	add(&slow, fmt.Sprintf("gossipdrain %d %d %d", 1000+50+r.Intn(100), 4, 250+1+r.Intn(12)))
+	// a transfer in progress keeps its slot: stalled senders (about 1.5 s each, in the background)
+	add(&slow, fmt.Sprintf("stall 1 0 v%d", r.Intn(2)))
+	add(&slow, fmt.Sprintf("stall 3 %d v%d", 2*r.Intn(2), r.Intn(2)))
+	if thorough {
+		add(&slow, "stall 3 0 v0")
+		add(&slow, "stall 3 2 v1")
+		add(&slow, "stall 50 49 v1")
+		add(&slow, "stall 2 1 v0")
+	}
 
 	// quick outcomes: every step x every limit x both kinds of permit
 	for _, L := range limits {
